@@ -100,3 +100,13 @@ func init() {
 		NonTrivial: func(fp string) bool { return true },
 	}
 }
+
+func init() {
+	metaTable["C03"] = propMeta{Level: "exploration", Assumptions: append(append([]string{}, commonAssumptions...),
+		"mutated-nonce cases are only run where a chance HMAC match is negligible (>= 8 HMAC bytes); validly signed future-dated nonces cannot be produced without the server key"),
+		Rule: "5 of 6 cases: public server with a standing allocation+permission+channel of one user and an allocation of another; each round draws (method in Allocate/Refresh/CreatePermission/ChannelBind/Connect) x (state: own allocation / no allocation) x (16 credential defects) and asserts: not success, state digest (hook snapshot+count+open sockets) unchanged, relay behaviour unchanged (conservation monitor), 401/438 challenges immediately usable; sound requests serve as positive control; every 23rd case runs a server without AuthHandler; " +
+			"1 of 6 cases: internal/server.HandleRequest with NewNonceHash or NewShortNonceHash(n), n cycling 2..32: fresh accepted, other-instance rejected, 12 mutations rejected (n>=8), ages 30/59 min accepted and 62 min/3 h/25 h rejected in virtual time; " +
+			"non-trivial = distinct (method,state,defect,response code) and (nonce impl, situation, code) fingerprints",
+		NonTrivial: func(fp string) bool { return true },
+	}
+}
